@@ -246,7 +246,18 @@ class Validator:
         # add in details of the error line, when Mapfile was parsed to
         # include position details
 
-        if "__position__" in d:
+        if (
+            path
+            and isinstance(d.get(key), dict)
+            and "__position__" in d[key]
+            and ("__position__" not in d or key not in d["__position__"])
+        ):
+            # an object-level error in a child block (e.g. an unknown keyword in a LEGEND)
+            # is reported at the child's opening keyword, not at its parent's
+            pd = d[key]["__position__"]
+            error_dict["line"] = pd.get("line")
+            error_dict["column"] = pd.get("column")
+        elif "__position__" in d:
             if not path or key not in d["__position__"]:
                 # position for the root object is stored in the root of the dict
                 pd = d["__position__"]
